@@ -2,6 +2,7 @@
 package c14
 
 import (
+	"errors"
 	"fmt"
 
 	"go.pennock.tech/tabular"
@@ -22,14 +23,41 @@ var Styles = []string{"csv", "html", "json", "markdown", "ascii-simple", "none",
 //
 //	render   render in Style; Reuse = through the long-lived wrapper of that style (created at first use), else a fresh one
 //	setprop  a user property (private key type) on Owner
+//	mutate   change a mutable item behind its cell's back and call Cell.Update() (Op carries the gen "mutate" operation);
+//	         from then on the table's content is the mutated one
+//	faulty   render in Style into a writer that fails at write FaultK in mode FaultMode (the render must fail);
+//	         the wrapper (reused or fresh) and the table must be none the worse for it
 type Act struct {
-	K     string `json:"k"`
-	Style string `json:"style,omitempty"`
-	Reuse bool   `json:"reuse,omitempty"`
-	Owner string `json:"owner,omitempty"` // table | column | row | cell | hdr
-	I     int    `json:"i,omitempty"`
-	J     int    `json:"j,omitempty"`
-	Key   int    `json:"key,omitempty"`
+	K         string  `json:"k"`
+	Style     string  `json:"style,omitempty"`
+	Reuse     bool    `json:"reuse,omitempty"`
+	Owner     string  `json:"owner,omitempty"` // table | column | row | cell | hdr
+	I         int     `json:"i,omitempty"`
+	J         int     `json:"j,omitempty"`
+	Key       int     `json:"key,omitempty"`
+	Op        *gen.Op `json:"op,omitempty"`
+	FaultK    int     `json:"fault_k,omitempty"`
+	FaultMode string  `json:"fault_mode,omitempty"` // from | once | partial
+}
+
+var errFault = errors.New("injected write failure")
+
+type faultWriter struct {
+	k     int
+	mode  string
+	calls int
+}
+
+func (w *faultWriter) Write(p []byte) (int, error) {
+	i := w.calls
+	w.calls++
+	switch {
+	case w.mode == "from" && i >= w.k, w.mode == "once" && i == w.k:
+		return 0, errFault
+	case w.mode == "partial" && i == w.k:
+		return len(p) / 2, errFault
+	}
+	return len(p), nil
 }
 
 type Case struct {
@@ -216,11 +244,12 @@ func CheckCase(c Case) *ev.Violation {
 		err error
 	}
 	refs := map[string]ref{}
+	var extra []gen.Op // mutations applied so far: part of the content from then on
 	reference := func(style string) ref {
 		if r, ok := refs[style]; ok {
 			return r
 		}
-		rt, _ := gen.Build(gen.Script{Ops: c.Script.Ops})
+		rt, _ := gen.Build(gen.Script{Ops: append(append([]gen.Op{}, c.Script.Ops...), extra...)})
 		settings(rt, c)
 		o, e := auto.Render(rt, style)
 		refs[style] = ref{o, e}
@@ -239,6 +268,31 @@ func CheckCase(c Case) *ev.Violation {
 			ref.key = userKey(mod(a.Key, 4))
 			po.SetProperty(ref.key, seq)
 			w.props[ref] = seq
+		case "mutate":
+			if a.Op == nil {
+				continue
+			}
+			before := m.Noops
+			m.Step(t, *a.Op)
+			if m.Noops == before {
+				extra = append(extra, *a.Op)
+				refs = map[string]ref{}
+			}
+		case "faulty":
+			var rw auto.RenderTable
+			if a.Reuse {
+				if long[a.Style] == nil {
+					long[a.Style] = auto.Wrap(t, a.Style)
+				}
+				rw = long[a.Style]
+			} else {
+				rw = auto.Wrap(t, a.Style)
+			}
+			fw := &faultWriter{k: a.FaultK, mode: a.FaultMode}
+			err := rw.RenderTo(fw)
+			if err == nil && fw.calls > a.FaultK && reference(a.Style).err == nil {
+				return ev.V("act %d: write %d failed (%s) during a %s render but RenderTo returned nil", i+1, a.FaultK, a.FaultMode, a.Style)
+			}
 		case "render":
 			var rw auto.RenderTable
 			if a.Reuse {
